@@ -58,4 +58,21 @@ get_internal_body = Contract(
     canaries=["result == ()"],
 )
 
-CONTRACTS = [get_function_type, set_value, get_internal_body]
+_SELF = lambda ids: ("node", "doctrans.emitter_utils.RewriteName", {"node_ids": ids})  # noqa: E731
+_NAME = ("node", "ast.Name", {"id": "str", "ctx": ("node", "ast.Load", {})})
+
+rewrite_name = Contract(
+    "doctrans.emitter_utils:RewriteName.visit_Name",
+    properties=["C16"],
+    note="node_ids: a tuple of 1..3 symbolic names (membership is all that matters)",
+    cases=[Case("ids=%d" % n, {"self": _SELF(("tuple", ["str"] * n)), "node": _NAME}) for n in (1, 2, 3)],
+    ensures=[
+        Clause("RN1", "not (node.id in self.node_ids) or (typeis(result, 'Attribute') and result.attr == node.id "
+                      "and typeis(result.value, 'Name') and result.value.id == 'self')",
+               note="a reference to a parameter becomes self.<name>"),
+        Clause("RN2", "(node.id in self.node_ids) or result is node", note="no other name is touched"),
+    ],
+    canaries=["result is node"],
+)
+
+CONTRACTS = [get_function_type, set_value, get_internal_body, rewrite_name]
